@@ -76,8 +76,9 @@ func (n *Node) ev(format string, a ...interface{}) {
 	n.mu.Unlock()
 }
 
-func newNode(x *X, idx int) *Node {
-	c := kit.EqualCommittee(4)
+func newNode(x *X, idx int) *Node { return newNodeC(x, idx, kit.EqualCommittee(4)) }
+
+func newNodeC(x *X, idx int, c kit.Committee) *Node {
 	n := &Node{x: x, Idx: idx, C: c, Comm: &kit.Comm{}, Proofs: map[uint64][]byte{}, Blocks: map[uint64]interface{}{}, CommitErrAt: map[uint64]bool{}, BlockReq: map[uint64]bool{}, BlockVal: map[uint64]bool{}}
 	id := c[idx].ID
 	n.Mem = &kit.Membership{Me: id, Committee: c}
